@@ -1652,7 +1652,10 @@ class RoutingMon(Monitor):
 
     def _edges(self):
         w = self.w
-        up = {d['name']: (d.get('up_late') or d.get('up', [])) for d in w.spec['devices']}
+        up = {d['name']: list(d.get('up_late') or d.get('up', [])) for d in w.spec['devices']}
+        for op in w.spec.get('ops', []):
+            if op['k'] == 'rewire':           # connections made at run time (or between two runs) count as configured
+                up[op['dev']] = up[op['dev']] + list(op['up'])
         groups = {g['name']: g['devices'] for g in w.spec.get('groups', [])}
         return up, groups
 
